@@ -14,7 +14,7 @@ import (
 
 func init() {
 	register("C17", false,
-		"Structural necessary conditions decided from source: (C17-race) for every goroutine started in package fbb, each variable it shares with its spawner (closure bindings) is examined: the accesses made inside the goroutine (through nested closures too) against the accesses the spawner - and its other closures - can make after the go statement, field-granular for structs; a pair on the same storage with at least one write is a data race unless the storage is a channel, a sync or sync/atomic value, a time.Ticker/Timer, or both sides hold a common mutex; method calls on a shared object count as writes unless the method is in the read-only table (bytes.Buffer.Len etc.) - and a read-only call still conflicts with a write on the other side; this covers every schedule at once; (C17-done) in each status-reporting goroutine the report with Done set is issued only on the path taken when the done-channel is closed, that path returns without another report, every other report leaves Done unset, and the spawner closes that channel exactly once, by a deferred call registered right after the go statement, on every exit. NOT decided: the numeric range of the reported byte counts; races inside the StatusUpdater or the transport supplied by the application.",
+		"Structural necessary conditions decided from source: (C17-race) for every goroutine started in package fbb, each variable it shares with its spawner (closure bindings) is examined: the accesses made inside the goroutine (through nested closures too) against the accesses the spawner - and its other closures - can make after the go statement, field-granular for structs; a pair on the same storage with at least one write is a data race unless the storage is a channel, a sync or sync/atomic value, a time.Ticker/Timer, or both sides hold a common mutex; method calls on a shared object count as writes unless the method is in the read-only table (bytes.Buffer.Len etc.) - and a read-only call still conflicts with a write on the other side; this covers every schedule at once; (C17-done) in each status-reporting goroutine the report with Done set is issued only on the path taken when the done-channel is closed (the select arm of that channel, the not-ok edge of a receive from it, or the end of a range over it), that path returns without another report, every other report leaves Done unset, and the spawner closes that channel exactly once, by a deferred call (a closure, or a plain defer close(ch) of a channel variable assigned once) registered right after the go statement, on every exit; reports issued through helpers or local closures are followed with the Done value bound to the argument of the call, and variables captured by a closure that the goroutine runs through a variable of the spawner count as shared with the goroutine for C17-race. NOT decided: the numeric range of the reported byte counts; races inside the StatusUpdater or the transport supplied by the application.",
 		checkC17)
 }
 
@@ -188,28 +188,44 @@ func raceRule(c *Ctx, r *Report, rule, pkg string, each func(fn *ssa.Function, i
 			nGo++
 			cf := mc.Fn.(*ssa.Function)
 			where := fnName(fn)
-			var names []string
-			for i, b := range mc.Bindings {
+			// examine compares the accesses to one shared variable: b is its address in the spawner,
+			// gfv the free variable it is bound to in gf, a function the goroutine runs. skip is a
+			// closure of the spawner that only the goroutine runs (see below): creating it is not an
+			// access by the spawner.
+			var examine func(name, label string, b ssa.Value, gf *ssa.Function, gfv *ssa.FreeVar, skip *ssa.MakeClosure, depth int)
+			examine = func(name, label string, b ssa.Value, gf *ssa.Function, gfv *ssa.FreeVar, skip *ssa.MakeClosure, depth int) {
 				al, ok := b.(*ssa.Alloc)
-				name := cf.FreeVars[i].Name()
-				if !ok {
-					// re-captured variable of an outer function: treat by name
-					name = cf.FreeVars[i].Name()
-				}
-				names = append(names, name)
 				elem := b.Type().Underlying().(*types.Pointer).Elem()
-				o := r.Add(rule, where, "go statement: shared variable "+name, c.pos(g.Pos()))
+				o := r.Add(rule, where, "go statement: shared variable "+label, c.pos(g.Pos()))
 				if exemptShared(elem) {
 					o.Triv("%s is a %s: safe for concurrent use by construction", name, types.TypeString(elem, func(p *types.Package) string { return p.Name() }))
-					continue
+					// a closure the goroutine runs through a variable of the spawner: what that closure
+					// captures is shared with the goroutine just like the goroutine's own bindings
+					if _, isSig := elem.Underlying().(*types.Signature); isSig && ok && depth < 2 {
+						if rmc := g9ClosureIn(al); rmc != nil && rmc != mc {
+							rcf := rmc.Fn.(*ssa.Function)
+							var sk *ssa.MakeClosure
+							if g9OnlyBoundInto(al, rmc, mc) {
+								sk = rmc
+							}
+							for j, rb := range rmc.Bindings {
+								n := rcf.FreeVars[j].Name()
+								examine(n, n+" (captured by "+name+")", rb, rcf, rcf.FreeVars[j], sk, depth+1)
+							}
+						}
+					}
+					return
 				}
 				var inG, inP []access
-				accessesOf(c, cf, cf.FreeVars[i], name, nil, &inG, 0)
+				accessesOf(c, gf, gfv, name, nil, &inG, 0)
 				if ok {
 					// spawner side: instructions that can execute after the go statement; closures created
 					// anywhere in the spawner (other than the goroutine's) may run after it
 					filter := func(in ssa.Instruction) bool {
 						if in == ssa.Instruction(mc) || in == instr {
+							return false
+						}
+						if skip != nil && in == ssa.Instruction(skip) {
 							return false
 						}
 						if in.Parent() != fn {
@@ -244,6 +260,10 @@ func raceRule(c *Ctx, r *Report, rule, pkg string, each func(fn *ssa.Function, i
 					o.Bad("data race: %s", strings.Join(conflicts, "; "))
 				}
 			}
+			for i, b := range mc.Bindings {
+				name := cf.FreeVars[i].Name()
+				examine(name, name, b, cf, cf.FreeVars[i], nil, 0)
+			}
 			if each != nil {
 				each(fn, instr, g, mc)
 			}
@@ -254,39 +274,13 @@ func raceRule(c *Ctx, r *Report, rule, pkg string, each func(fn *ssa.Function, i
 
 func doneRule(c *Ctx, r *Report, fn *ssa.Function, goInstr ssa.Instruction, g *ssa.Go, mc *ssa.MakeClosure) {
 	cf := mc.Fn.(*ssa.Function)
-	var reports []ssa.CallInstruction
-	for _, ci := range allCalls(cf) {
-		if invokes(ci, "UpdateStatus") {
-			reports = append(reports, ci)
-		}
-	}
+	// report events of the goroutine: UpdateStatus called directly, or through a helper / local
+	// closure with the Done value bound to the call's arguments (ip_g9.go)
+	reports := c.g9Reports(cf, 0)
 	if len(reports) == 0 {
 		return
 	}
 	where := fnName(cf)
-	// value stored in Status.Done for each report
-	doneOf := func(ci ssa.CallInstruction) ssa.Value {
-		arg := ci.Common().Args[0]
-		ld, ok := arg.(*ssa.UnOp)
-		if !ok {
-			return nil
-		}
-		al, ok := ld.X.(*ssa.Alloc)
-		if !ok {
-			return nil
-		}
-		var v ssa.Value
-		for _, ref := range *al.Referrers() {
-			if fa, ok := ref.(*ssa.FieldAddr); ok && fieldName(fa.X.Type(), fa.Field) == "Done" {
-				for _, r2 := range *fa.Referrers() {
-					if st, ok := r2.(*ssa.Store); ok {
-						v = st.Val
-					}
-				}
-			}
-		}
-		return v
-	}
 	// channels the spawner closes by defer
 	closed := map[string]bool{}
 	nClose := map[string]int{}
@@ -309,53 +303,64 @@ func doneRule(c *Ctx, r *Report, fn *ssa.Function, goInstr ssa.Instruction, g *s
 				}
 			}
 		}
+		// `defer close(ch)`: the same channel provided the variable is assigned exactly once
+		if ch := g9DeferredCloseArg(d); ch != "" {
+			closed[ch] = true
+			deferAt = in
+		}
 	})
 	eachInstrDeep(fn, func(_ *ssa.Function, in ssa.Instruction) {
 		if call, ok := in.(ssa.CallInstruction); ok && callName(call.Common()) == "builtin.close" {
 			nClose[strings.TrimPrefix(pathOf(call.Common().Args[0]), "&")]++
 		}
 	})
+	// can another report be issued after event rp?
+	followed := func(rp g9Report) bool {
+		for _, other := range reports {
+			if other.at == rp.at && other.inner != rp.inner {
+				return true // the same call issues several reports
+			}
+			if instrReaches(rp.at, other.at) {
+				return true
+			}
+		}
+		return false
+	}
 	nFinal := 0
 	for _, rp := range reports {
-		o := r.Add("C17-done", where, "report "+c.exprAt(cf, rp.Pos())[:min(40, len(c.exprAt(cf, rp.Pos())))], c.pos(rp.Pos()))
-		dv := doneOf(rp)
+		text := c.exprAt(cf, rp.at.Pos())
+		o := r.Add("C17-done", where, "report "+text[:min(40, len(text))], c.pos(rp.at.Pos()))
+		dv, neg := rp.done.v, rp.done.neg
+		for dv != nil {
+			if u, ok := dv.(*ssa.UnOp); ok && u.Op == token.NOT {
+				dv, neg = u.X, !neg
+				continue
+			}
+			break
+		}
+		cb, isConst := false, false
+		if dv != nil {
+			if b, isC := constBool(dv); isC {
+				cb, isConst = b != neg, true
+			}
+		}
 		switch {
-		case dv == nil:
-			o.OK("Done is not set: an intermediate report")
-		case func() bool { b, isC := constBool(dv); return isC && !b }():
-			o.OK("Done is constant false: an intermediate report")
-		case func() bool { b, isC := constBool(dv); return isC && b }():
+		case rp.done.unknown != "":
 			nFinal++
-			// must be on the select arm of a channel the spawner closes, and be followed by return only
-			ch := ""
-			for _, cd := range condsAt(rp.Block()) {
-				b, ok := cd.V.(*ssa.BinOp)
-				if !ok || b.Op != token.EQL || !cd.Truth {
-					continue
-				}
-				ex, ok := b.X.(*ssa.Extract)
-				if !ok || ex.Index != 0 {
-					continue
-				}
-				sel, ok := ex.Tuple.(*ssa.Select)
-				if !ok {
-					continue
-				}
-				k, _ := constInt(b.Y)
-				if int(k) < len(sel.States) {
-					ch = strings.TrimPrefix(pathOf(sel.States[k].Chan), "&")
-				}
-			}
-			again := false
-			for _, other := range reports {
-				if instrReaches(rp, other) {
-					again = true
-				}
-			}
+			o.Bad("the value of Done in this report cannot be decided: %s", rp.done.unknown)
+		case rp.done.unset:
+			o.OK("Done is not set: an intermediate report")
+		case isConst && !cb:
+			o.OK("Done is constant false: an intermediate report")
+		case isConst && cb:
+			nFinal++
+			// must be on the edge taken when a channel the spawner closes is closed (select arm, or
+			// the not-ok edge of a receive / the end of a range over it), and be followed by no report
+			ch := g9ClosedEdge(rp.at.Block())
 			switch {
 			case ch == "" || !closed[ch]:
 				o.Bad("the final report (Done: true) is not on the arm of a channel that the spawner closes when the transfer ends")
-			case again:
+			case followed(rp):
 				o.Bad("another report can follow the final one: more than one report, or a report after Done")
 			default:
 				o.OK("final report on the arm of %s, which the spawner closes by defer; no report can follow", ch)
@@ -365,10 +370,6 @@ func doneRule(c *Ctx, r *Report, fn *ssa.Function, goInstr ssa.Instruction, g *s
 			// and the goroutine must return when it is true
 			nFinal++
 			okv := dv
-			neg := false
-			if u, ok := dv.(*ssa.UnOp); ok && u.Op == token.NOT {
-				okv, neg = u.X, true
-			}
 			ch := ""
 			if ex, ok := okv.(*ssa.Extract); ok && ex.Index == 1 {
 				if rcv, ok := ex.Tuple.(*ssa.UnOp); ok && rcv.Op == token.ARROW && rcv.CommaOk {
@@ -379,28 +380,29 @@ func doneRule(c *Ctx, r *Report, fn *ssa.Function, goInstr ssa.Instruction, g *s
 			leaves := false
 			eachInstr(cf, func(b *ssa.BasicBlock, _ int, in ssa.Instruction) {
 				ifi, isIf := in.(*ssa.If)
-				if !isIf || !instrReaches(rp, in) && rp.Block() != b {
+				if !isIf || !instrReaches(rp.at, in) && rp.at.Block() != b {
 					return
 				}
-				cond := ifi.Cond
-				truthClosed := false // which successor is taken when the channel is closed (ok == false)
-				if u, isNot := cond.(*ssa.UnOp); isNot && u.Op == token.NOT && u.X == okv {
-					truthClosed = true
-				} else if cond == okv {
-					truthClosed = false
-				} else if cond == dv {
-					truthClosed = neg
-				} else {
+				cond, truth := ifi.Cond, true
+				for {
+					if u, isNot := cond.(*ssa.UnOp); isNot && u.Op == token.NOT {
+						cond, truth = u.X, !truth
+						continue
+					}
+					break
+				}
+				if cond != okv {
 					return
 				}
+				// the channel is closed when ok is false: successor taken when cond (= ok) is false
 				t := b.Succs[1]
-				if truthClosed {
+				if !truth {
 					t = b.Succs[0]
 				}
 				if regionExits(t) {
 					clean := true
 					for _, other := range reports {
-						if t.Dominates(other.Block()) {
+						if t.Dominates(other.at.Block()) {
 							clean = false
 						}
 					}
@@ -532,6 +534,25 @@ func sessionFieldRule(c *Ctx, r *Report, rule string) {
 				}
 			}
 			collect(cf)
+			// helpers (functions, methods, closures of the spawner held in a variable) through which
+			// the goroutine issues its reports run in the goroutine too (ip_g9.go)
+			for i := 0; i < len(gfns) && len(gfns) < 32; i++ {
+				for _, ci := range allCalls(gfns[i]) {
+					h := g9LocalFunc(ci.Common())
+					if h == nil || !c.inModule(h) || pkgRel(h) != pkg || len(c.g9Reports(h, 0)) == 0 {
+						continue
+					}
+					dup := false
+					for _, g := range gfns {
+						if g == h {
+							dup = true
+						}
+					}
+					if !dup {
+						collect(h)
+					}
+				}
+			}
 			// (a) session fields read in the goroutine
 			read := map[string]token.Pos{}
 			for _, gf := range gfns {
@@ -559,14 +580,11 @@ func sessionFieldRule(c *Ctx, r *Report, rule string) {
 				}
 			}
 			// (b) counters reported belong to this transfer
-			for _, gf := range gfns {
-				for _, ci := range allCalls(gf) {
-					if !ci.Common().IsInvoke() || ci.Common().Method.Name() != "UpdateStatus" {
-						continue
-					}
-					o := r.Add(rule, fnName(gf), "counter reported by "+c.exprAt(gf, ci.Pos()), c.pos(ci.Pos()))
-					bad := ""
-					dependsOn(ci.Common().Args[0], func(x ssa.Value) bool {
+			checkCounter := func(gf *ssa.Function, ci ssa.CallInstruction, vals []ssa.Value) {
+				o := r.Add(rule, fnName(gf), "counter reported by "+c.exprAt(gf, ci.Pos()), c.pos(ci.Pos()))
+				bad := ""
+				for _, val := range vals {
+					dependsOn(val, func(x ssa.Value) bool {
 						call, ok := x.(*ssa.Call)
 						if !ok || !strings.HasPrefix(callName(&call.Call), "sync/atomic.") || len(call.Call.Args) == 0 {
 							return false
@@ -587,9 +605,17 @@ func sessionFieldRule(c *Ctx, r *Report, rule string) {
 							case *ssa.UnOp:
 								walk(y.X, depth+1)
 							case *ssa.FreeVar:
+								found := false
 								for i, fv := range cf.FreeVars {
 									if fv == y && i < len(mc.Bindings) {
+										found = true
 										walk(mc.Bindings[i], depth+1)
+									}
+								}
+								if !found {
+									// free variable of a nested closure or of a closure of the spawner
+									if al := g9SlotOf(y); al != nil {
+										walk(al, depth+1)
 									}
 								}
 							case *ssa.Alloc:
@@ -603,10 +629,22 @@ func sessionFieldRule(c *Ctx, r *Report, rule string) {
 						walk(call.Call.Args[0], 0)
 						return false
 					})
-					if bad != "" {
-						o.Bad("the count reported comes from %s, a counter that lives as long as the session: a reporter that runs late (it is never joined) reports the next transfer's count for its own message - BytesTransferred outside [0, BytesTotal]", bad)
-					} else {
-						o.OK("the counters loaded belong to the spawning call")
+				}
+				if bad != "" {
+					o.Bad("the count reported comes from %s, a counter that lives as long as the session: a reporter that runs late (it is never joined) reports the next transfer's count for its own message - BytesTransferred outside [0, BytesTotal]", bad)
+				} else {
+					o.OK("the counters loaded belong to the spawning call")
+				}
+			}
+			for _, gf := range gfns {
+				for _, ci := range allCalls(gf) {
+					if ci.Common().IsInvoke() && ci.Common().Method.Name() == "UpdateStatus" {
+						checkCounter(gf, ci, ci.Common().Args[:1])
+						continue
+					}
+					// a report issued through a helper: the counts are among the call's arguments
+					if h := g9LocalFunc(ci.Common()); h != nil && c.inModule(h) && pkgRel(h) == pkg && len(c.g9Reports(h, 0)) > 0 {
+						checkCounter(gf, ci, ci.Common().Args)
 					}
 				}
 			}
